@@ -98,8 +98,16 @@ def check(ctx: Ctx, col: Collector, tier: str) -> None:
         st.eq[repr(Sym("expr.name"))] = Const(nm)
         outs = ctx.interp(efi).run_function(efi, {ep: Sym("expr", "NameExpr")}, st)
         key = f"{HELPERS}::mypy_expression_to_sds_type::NameExpr:{nm}"
-        good = len(outs) == 1 and outs[0].kind == "return" and isinstance(outs[0].value, Obj) and outs[0].value.cls == "sds.NamedType" \
-            and outs[0].value.get("name") == Const(want[0]) and outs[0].value.get("qname") == want[1]
+        def named_ok(o):
+            return o.kind == "return" and isinstance(o.value, Obj) and o.value.cls == "sds.NamedType" and o.value.get("name") == Const(want[0]) and o.value.get("qname") == want[1]
+        if nm == "x":
+            # a variable's name is not its type (UnknownType); a class reference keeps its name
+            good = bool(outs) and all(
+                (named_ok(o) and not any(k.startswith("isinstance(<expr.node>") and v for k, v in o.facts))
+                or (o.kind == "return" and isinstance(o.value, Obj) and o.value.cls == "sds.UnknownType" and any(k.startswith("isinstance(<expr.node>") and "Var" in k and v for k, v in o.facts))
+                for o in outs) and any(named_ok(o) for o in outs)
+        else:
+            good = len(outs) == 1 and named_ok(outs[0])
         (col.ok if good else col.bad)("C07.INFER-TABLE", key, repo.loc(HELPERS, efi.node), f"{[(o.kind, repr(o.value)) for o in outs]}",
                                       *([] if good else [f"returned name {nm} is not inferred as {want[0]}"]))
     outs = ctx.interp(efi).run_function(efi, {ep: Sym("expr", "TupleExpr")})
